@@ -7,6 +7,9 @@ issued request_uri that are not the issued string (SPELLINGS).  Every case is a 
 Gallina model (Model/Jar.v) is evaluated on the same trace inside coqc (Model/JarCheck.v chk_compact).
 The oracle below is written from the property text and uses only the generator's ground truth
 (who signed what with which algorithm; which uri was pushed when).
+The registered algorithm of a client is written into the client database for the static clients; a third client
+registers through the REAL registration endpoint (gen_registered): there the ground truth is what the client asked for
+and what the provider advertises, the model's `register` step yields the provider the trace is evaluated on.
 """
 import copy
 import json
@@ -34,8 +37,16 @@ RULE = ("a case is a trace of operations on one real provider: authorization par
         "{absent, RS256, ES256, HS256, none} x provider sets x 3 transports x flavours x cty {absent, JWT}; other cty / alg / enc "
         "header values, JWE in JWE, other plaintexts; registered request_object_encryption_alg/_enc matching / not matching the wrapper "
         "x provider sets; claims of another client inside the wrapper x client-authn set-ups; PAR words with wrapped pushes; random. "
+        "(7) the registration dimension: a third client registers through the REAL registration endpoint (parse_request + "
+        "process_request; JWKS with RSA / P-256 / P-384 / P-521 / Ed25519 keys, subsets, no JWKS) asking for every JOSE signing "
+        "algorithm {RS/PS/ES256-512, EdDSA, HS256-512, none}, nothing, or a value outside JOSE, at providers whose OWN key set is "
+        "{RSA+P-256, RSA, P-256, RSA+P-384, all types} and whose request_object_signing_alg_values_supported is {default, three "
+        "restricted lists} (contains / lacks the value); the response, the client database and the registration-read endpoint are "
+        "compared; then objects signed with the algorithm asked for, with other advertised algorithms (one per key family) under "
+        "keys the client registered, HS256 with its client secret, unsigned, under a foreign key, x 3 transports against that "
+        "client; refused registrations followed by objects in the client's name; static clients next to a registered one; random. "
         "Non-trivial = at least one object/pushed request "
-        "is accepted or a refusal is caused by exactly one fault.")
+        "is accepted or a refusal is caused by exactly one fault, or a registration was accepted (and what it stored was judged).")
 ASSUMPTIONS = [
     "JWS signatures are ideal (symbolic Sig k (alg, claims)): verification succeeds iff the verifier holds key k and header/payload are the signed ones",
     "cryptojwt KeyJar/JWS key selection is as transcribed in Model/Jar.v lookup_keys / try_verify (one key per issuer and key type in the harness)",
@@ -47,6 +58,17 @@ ASSUMPTIONS = [
     "an encrypted wrapper (JWE) is ideal: it opens iff it is addressed to a key the provider holds and is intact (Model/Jar.v jwe_state); "
     "the key-management / content-encryption algorithms do not matter (both RSA-OAEP and ECDH-ES are driven)",
     "jti/exp/nbf claims, nested request/request_uri claims are outside the modelled fragment",
+    "dynamic registration (Model/Jar.v register): only request_object_signing_alg is transcribed; whether the rest of a registration "
+    "request is acceptable is C19's subject and enters as the flag rq_ok; the client_id the provider assigns is new (fixed by a "
+    "client_id_generator in the harness); the keys of the JWKS are in the key jar afterwards (observed, not modelled)",
+    "observation (not a violation; decided with the property's owner): a requested request_object_signing_alg the provider does NOT "
+    "advertise is dropped by the registration negotiation (filter_client_request / match_claim), the registration is accepted with 201 "
+    "and the response / client database / read endpoint all lack the parameter, so the provider's supported set is what is permitted "
+    "for that client - including unsigned objects when the provider lists \"none\" (C16_registered_dropped); the oracle judges such a "
+    "client by the value the registration response echoes",
+    "EdDSA (OKP keys) is driven and judged by the oracle but outside the modelled fragment (alg_kind answers AlgUnknown)",
+    "a statically configured client is a record the deployer writes into the client database (no library code between the "
+    "configuration and context.cdb): that is what World.configure does",
 ]
 
 ISS = "https://example.com/"
@@ -113,7 +135,9 @@ CONST = {"client_id": "k_client_id", "redirect_uri": "k_redirect_uri", "scope": 
          "https://example.com/": "s_op", "<JWS>": "s_jws", "RS256": "s_rs256", "ES256": "s_es256", "HS256": "s_hs256",
          "RS384": "s_rs384", "none": "s_none", "in0": "s_in0", "out0": "s_out0",
          "https://client_1.example.com/ro/0": "s_doc0", "RSA-OAEP": "s_rsa_oaep", "ECDH-ES": "s_ecdh_es",
-         "A256GCM": "s_a256gcm", "A128GCM": "s_a128gcm"}
+         "A256GCM": "s_a256gcm", "A128GCM": "s_a128gcm", "client_d": "s_cd", "https://client_d.example.com/cb": "s_rd",
+         "ES384": "s_es384", "ES512": "s_es512", "RS512": "s_rs512", "PS256": "s_ps256", "PS384": "s_ps384", "PS512": "s_ps512",
+         "HS384": "s_hs384", "HS512": "s_hs512", "ind": "s_ind", "outd": "s_outd"}
 _coq_str = coq_str
 
 
@@ -160,7 +184,7 @@ def coq_wobj(o):
     cl = coq_params(canon_claims(o["claims"]))
     if sg is None:
         return "(WObj %s %s None)" % (coq_str(o["alg"]), cl)
-    k = coq_nat(S.keynum(sg["owner"], S.ALG_KTY[sg["alg"]]))
+    k = coq_nat(S.keynum(sg["owner"], S.slot_of(sg["alg"]) if sg["owner"] == S.DYN else S.ALG_KTY[sg["alg"]]))
     if sg["alg"] == o["alg"] and canon_claims(sg["claims"]) == canon_claims(o["claims"]) and list(sg["claims"]) == list(o["claims"]):
         return "(wgen %s %s %s)" % (coq_str(o["alg"]), cl, k)
     return "(wsig %s %s %s %s %s)" % (coq_str(o["alg"]), cl, k, coq_str(sg["alg"]), coq_params(canon_claims(sg["claims"])))
@@ -273,7 +297,9 @@ def modelled(world_oidc, ops, docs):
             if "json" in inner:
                 return obj_ok({"alg": "none", "claims": inner["json"], "sig": None})
             return obj_ok(inner)
-        if o["alg"] not in S.ALG_KTY:
+        if o["alg"] not in S.ALG_KTY or S.ALG_KTY[o["alg"]] == "OKP":
+            return False
+        if o.get("sig") and S.ALG_KTY.get(o["sig"]["alg"]) == "OKP":
             return False
         for c in [o["claims"]] + ([o["sig"]["claims"]] if o.get("sig") else []):
             if any(k in c for k in ("request", "request_uri", "id_token_hint", "prompt", "authenticated")):
@@ -321,36 +347,62 @@ class Runner:
         self.clock = None
         self.srv = srv
         self.cases = {}       # static literal -> list of (term, record)
+        self.rcases = {}      # the same for registration + request-object traces (case type rcase)
+        self.known = ("client_1", "client_2")      # the clients the provider knows, by generator ground truth
+        self.reg_stats = {"stored": 0, "refused": 0, "exact": 0, "dropped": 0}
         self.accepted_genuine = 0
         self.accepted_wrapped = set()
         self.hooks_bad = False
 
-    def world(self, oidc, methods="all", has_par=True, ttl=3600):
-        key = (oidc, methods, has_par, ttl)
+    def world(self, oidc, methods="all", has_par=True, ttl=3600, opkeys=None):
+        key = (oidc, methods, has_par, ttl, opkeys)
         if key not in self.worlds:
-            self.worlds[key] = self.S.World(oidc, methods, has_par, ttl)
+            self.worlds[key] = (self.S.World(oidc, methods, has_par, ttl) if opkeys is None
+                                else self.S.RegWorld(oidc, methods, has_par, ttl, opkeys))
             if self.clock is not None:
                 self.clock.uninstall()
             self.clock = self.srv.Clock().install()
         return self.worlds[key]
 
     # ---- run one case on the real code
-    def run_case(self, kind, wkey, conf, docs, ops, t0=1_700_000_000, note=""):
+    def run_case(self, kind, wkey, conf, docs, ops, t0=1_700_000_000, note="", register=None):
         """conf: dict(reg=..., request_uris=..., prov_algs=..., ru_supported=...); docs: url -> symbolic object;
-        ops: list of ("authz", outer, obj) | ("push", pusher, body, obj) | ("tick", dt) | ("redeem", who, which, outer_extra)"""
+        ops: list of ("authz", outer, obj) | ("push", pusher, body, obj) | ("tick", dt) | ("redeem", who, which, outer_extra);
+        register (worlds with a registration endpoint: wkey has a fifth component, the provider's own key set):
+        {"alg": requested request_object_signing_alg | None, "slots": which of its public keys the JWKS carries,
+         "ok": the rest of the request is acceptable, "over": other registration parameters} - client_d registers
+        through the real registration endpoint before the operations run"""
         S, ctx = self.S, self.ctx
         w = self.world(*wkey)
         w.configure(**conf)
         self.clock.now = t0
+        rec = {"kind": kind, "note": note, "world": {"oidc": wkey[0], "methods": wkey[1], "has_par": wkey[2], "ttl": wkey[3]},
+               "conf": conf, "docs": docs, "ops": [], "t0": t0}
+        if len(wkey) > 4:
+            rec["world"]["opkeys"] = wkey[4]
+        oc0 = robs = None
+        self.pending = []       # verdicts on the registration: reported once the trace is recorded in rec
+        self.known = ("client_1", "client_2")
+        in_force = None
+        if register is not None:
+            oc0 = w.observed_config()          # the provider before the registration: the model's input
+            oc0["prov_default"] = w.base_algs
+            robs = w.register(register.get("alg"), register.get("slots") or [], register.get("over"))
+            rec["register"], rec["registration"] = register, robs
+            in_force = self.judge_registration(rec, w, register, robs, oc0["prov_algs"])
         for u, o in docs.items():
             w.docs[u] = w.wire(o)
         oc = w.observed_config()
         if not oc["hooks"] or oc["hooks"][-1] != "Authorization._post_parse_request":
             self.hooks_bad = True
         reg = {c["cid"]: c["reg"] for c in oc["clients"]}
+        if register is not None:
+            # ground truth for the dynamically registered client: what it asked for (when the provider advertises it),
+            # never what the client database happens to hold
+            reg.pop(S.DYN, None)
+            if robs["k"] == "stored":
+                reg[S.DYN] = in_force
         prov = oc["prov_algs"]
-        rec = {"kind": kind, "note": note, "world": {"oidc": wkey[0], "methods": wkey[1], "has_par": wkey[2], "ttl": wkey[3]},
-               "conf": conf, "docs": docs, "ops": [], "t0": t0}
         ledger = {}        # urn -> ground truth of the push that was issued this urn
         markers = {}       # state marker of pushed content -> urn issued for it
         trace = []
@@ -476,19 +528,70 @@ class Runner:
                     self.judge_object(rec, "value", obj, outer, out, eff.get("client_id"), reg, prov)
                 if ru and not ru.startswith("urn:uuid:") and ru in docs:
                     self.judge_object(rec, "uri", docs[ru], outer, out, eff.get("client_id"), reg, prov)
+        for sig, what in self.pending:
+            ctx.violation(sig, what, rec)
+        if register is not None and robs["k"] == "stored":
+            nontrivial = True
         ctx.case_seen(rec, nontrivial)
         if not modelled(wkey[0], real_ops, docs):
             ctx.unmodelled += 1
             return rec
         oc["prov_default"] = w.base_algs
         jar, base, dprov = coq_static(oc)
-        term = "(%s, %s, %s, %s)" % (
-            coq_cfg_var(oc),
-            coq_list(["(%s, %s)" % (coq_str(u), coq_wobj(o)) for u, o in docs.items()], "(pystr * wobj)"),
-            coq_z(t0),
-            coq_list(["(%s, %s)" % (coq_op(o), coq_obs(b)) for o, b in trace], "(op * obs)"))
-        self.cases.setdefault((jar, base, dprov), []).append((term, rec))
+        cdocs = coq_list(["(%s, %s)" % (coq_str(u), coq_wobj(o)) for u, o in docs.items()], "(pystr * wobj)")
+        ctrace = coq_list(["(%s, %s)" % (coq_op(o), coq_obs(b)) for o, b in trace], "(op * obs)")
+        if register is None:
+            term = "(%s, %s, %s, %s)" % (coq_cfg_var(oc), cdocs, coq_z(t0), ctrace)
+            self.cases.setdefault((jar, base, dprov), []).append((term, rec))
+            return rec
+        # registration + trace: the configuration BEFORE the registration, the request, what was observed of the
+        # registration (response / client database / read endpoint), the trace
+        rq = "(%s, %s, %s, %s)" % (coq_str(S.DYN), coq_opt(register.get("alg"), coq_str, "pystr"),
+                                   coq_bool(register.get("ok", True)), "None")
+        if robs["k"] == "stored":
+            ro = "(BStored %s %s %s)" % (coq_reg(robs["echo"]), coq_reg(robs["stored"]), coq_reg(robs["read"]))
+        else:
+            ro = "BRefused"
+        term = "(%s, %s, %s, %s, %s, %s)" % (coq_cfg_var(oc0), rq, ro, cdocs, coq_z(t0), ctrace)
+        self.rcases.setdefault((jar, base, dprov), []).append((term, rec))
         return rec
+
+    # ---- the oracle for the registration step
+    def judge_registration(self, rec, w, register, robs, advertised):
+        """Ground truth: the algorithm the client asked for and the set the provider advertises.  Returns the
+        registration in force for the request objects that follow (None: the provider's set applies)."""
+        ctx, S = self.ctx, self.S
+        asked = register.get("alg")
+        ctx.count("register:%s/%s" % (robs["k"], "asked" if asked is not None else "silent"))
+        if robs["k"] == "refused":
+            self.reg_stats["refused"] += 1
+            # a refused registration registers nothing
+            if robs["left_cdb"] or robs["left_jar"]:
+                self.pending.append(("reg-refused-left-behind", "the registration was refused (%s) but left %r in the client database / %r "
+                              "in the key jar" % (robs["why"], robs["left_cdb"], robs["left_jar"])))
+            return None
+        self.reg_stats["stored"] += 1
+        self.known = ("client_1", "client_2", robs["cid"])
+        if robs["cid"] != S.DYN or robs["new"] != [S.DYN]:
+            ctx.broken.append("harness: the registration created %r (expected exactly %s)" % (robs["new"], S.DYN))
+        if asked is not None and asked in advertised:
+            # (1) an advertised algorithm is registered exactly as asked, whatever keys the provider itself owns
+            self.reg_stats["exact"] += 1
+            in_force = asked
+            if robs["stored"] != asked:
+                self.pending.append(("reg-alg-not-stored", "client registered request_object_signing_alg=%s, which the provider advertises (%r; own "
+                              "keys: %s), the registration was accepted, but the client database holds %r" % (
+                                  asked, advertised, w.opkeys, robs["stored"])))
+        else:
+            # not asked for / not advertised: whatever the provider registered instead, it must say so (2)
+            self.reg_stats["dropped"] += 1
+            in_force = robs["echo"]
+        # (2) the response and the read endpoint tell the client what is in force
+        if not (robs["echo"] == robs["stored"] == robs["read"]) or robs["read_error"]:
+            self.pending.append(("reg-echo-differs", "request_object_signing_alg asked %r: registration response says %r, client database holds %r, "
+                          "registration-read returns %r%s" % (asked, robs["echo"], robs["stored"], robs["read"],
+                                                             " (%s)" % robs["read_error"] if robs["read_error"] else "")))
+        return in_force
 
     # ---- the oracle for one object that may have taken effect
     def judge_object(self, rec, transport, obj, outer, out, ident, reg, prov, when="", wrapped=None):
@@ -525,7 +628,7 @@ class Runner:
             return
         tag = "%s%s%s" % (transport, "/" + when if when else "", "/jwe(%s)" % wrapped if wrapped else "")
         alg, sg = obj["alg"], obj.get("sig")
-        if ident not in ("client_1", "client_2"):
+        if ident not in self.known:
             ctx.violation("no-identified-client", "%s: object parameters took effect for unregistered/absent client %r" % (tag, ident), rec)
             return
         if alg != "none":
@@ -558,6 +661,8 @@ class Runner:
         if alg != "none" and sg is not None and sg["alg"] == alg and canon_claims(sg["claims"]) == claims and sg["owner"] == ident:
             self.accepted_genuine += 1
             ctx.count("genuine-accepted:" + transport)
+            if ident == S.DYN:
+                ctx.count("genuine-accepted-registered:" + transport)
             if wrapped:
                 self.accepted_wrapped.add(transport)
                 ctx.count("genuine-accepted-jwe:" + transport)
@@ -1059,6 +1164,150 @@ def gen_par_spelling(R, rng, quick):
                    note="par spelling random word %s spellings %s" % (word, ",".join("%d:%s" % kv for kv in sorted(picks.items()))))
 
 
+# ------------------------------------------------------------------ the registration dimension: how the registered
+# algorithm gets into the client database.  client_d registers through the real registration endpoint, then the fault
+# matrix runs against it; ground truth = what it asked for and what the provider advertises.
+RPROVS = [None, ["RS256", "ES256"], ["RS256", "ES384", "HS256", "none"], ["PS256", "RS512", "ES512", "EdDSA", "HS512", "none"]]
+ALL_SLOTS = ["RSA", "EC", "EC384", "EC521", "OKP"]
+DOVER = {"client_id": "client_d", "redirect_uri": "https://client_d.example.com/cb", "state": "outd"}
+FAMILY = {"RSA": ("RS256", "PS384", "RS512"), "EC": ("ES256", "ES384", "ES512"), "oct": ("HS256", "HS512"), "OKP": ("EdDSA",)}
+
+
+def dyn_claims(state="ind"):
+    return dict(base_claims("client_d", 0), state=state)
+
+
+def reg_objects(asked, advertised, slots, thorough=False, state="ind"):
+    """(name, object): objects client_d (or somebody else in its name) sends after it registered [asked]:
+    signed with the algorithm it asked for; with other algorithms the provider advertises, one per key family, under keys
+    the client registered; HS256 with its client secret; unsigned; the asked algorithm under a foreign key / tampered"""
+    import srv_c16 as S
+    c = dyn_claims(state)
+    have = set(slots) | {"oct"}
+    O = []
+    if asked in S.ALG_KTY and asked != "none" and S.slot_of(asked) in have:
+        O.append(("asked-" + asked, genuine("client_d", asked, c)))
+    for fam, algs in FAMILY.items():
+        cands = [a for a in algs if a != asked and a in advertised and S.slot_of(a) in have]
+        for a in (cands if thorough else cands[:1]):
+            O.append(("other-" + a, genuine("client_d", a, c)))
+    if not any(n == "other-HS256" or n == "asked-HS256" for n, _o in O):
+        O.append(("secret-HS256", genuine("client_d", "HS256", c)))
+    O.append(("unsigned", genuine("client_d", "none", c)))
+    O.append(("unsigned-noiss", genuine("client_d", "none", without(c, "iss"))))
+    fa = asked if asked in ("RS256", "RS384", "RS512", "PS256", "PS384", "PS512", "ES256", "HS256", "HS384", "HS512") else "RS256"
+    O.append(("mallory-" + fa, genuine("mallory", fa, c)))
+    if thorough:
+        O.append(("client_2-" + fa, genuine("client_2", fa, c)))
+        if asked in S.ALG_KTY and asked != "none" and S.slot_of(asked) in have:
+            O.append(("tampered-" + asked, {"alg": asked, "claims": dict(c, state="evil"),
+                                           "sig": {"owner": "client_d", "alg": asked, "claims": c}}))
+    return O
+
+
+def advertised_of(R, wkey, prov):
+    return list(prov) if prov is not None else list(R.world(*wkey).base_algs)
+
+
+def gen_registered(R, quick):
+    import srv_c16 as S
+    asked_all = S.JOSE_SIGNING + [None, "ES256K", "rs256"]
+    n = 0
+    for opkeys in S.OP_KEYSETS:
+        full = opkeys == "rsa+p256" or not quick
+        for prov in RPROVS:
+            if quick and not full and prov not in (RPROVS[0], RPROVS[2]):
+                continue
+            for meth in ("all", "pub"):
+                if meth == "pub" and (quick or not full) and not (opkeys == "rsa+p256" and prov in (RPROVS[0], RPROVS[2])):
+                    continue
+                wkey = (True, meth, True, 3600, opkeys)
+                adv = advertised_of(R, wkey, prov)
+                for asked in asked_all:
+                    if meth == "pub" and quick and asked not in ("ES384", "PS256", "HS256", "none", "EdDSA", None):
+                        continue
+                    if quick and not full and asked in ("RS384", "PS384", "HS384"):
+                        continue
+                    register = {"alg": asked, "slots": ALL_SLOTS, "ok": True}
+                    for name, obj in reg_objects(asked, adv, ALL_SLOTS, thorough=not quick):
+                        for transport in ("value", "uri", "par"):
+                            n += 1
+                            if quick and (not full or prov in (RPROVS[1], RPROVS[3])) and transport != "value" and (
+                                    name.startswith(("unsigned-noiss", "mallory")) or (transport == "uri") != (n % 2 == 0)):
+                                continue        # the other key sets: by value, and by request_uri / pushed in turns
+                            docs, ops = ops_for(transport, 0, obj, DOVER, pusher="client_d")
+                            R.run_case("register", wkey, {"prov_algs": prov}, docs, ops, register=register,
+                                       note="%s/%s after registering %r (advertised %s, own keys %s)" % (
+                                           transport, name, asked, "default" if prov is None else prov, opkeys))
+    # what the JWKS carries: only the key of the algorithm asked for / no JWKS at all / keys of other types only
+    for opkeys in ("rsa+p256", "rsa"):
+        wkey = (True, "all", True, 3600, opkeys)
+        for prov in (RPROVS[0], RPROVS[2]):
+            if quick and opkeys == "rsa" and prov is None:
+                continue
+            adv = advertised_of(R, wkey, prov)
+            for asked, slotsets in (("ES384", (["EC384"], ["RSA"], [], ["EC384", "RSA"])), ("RS256", (["RSA"], ["EC"], [])),
+                                    ("HS256", ([], ["RSA"])), ("ES512", (["EC521"], ["EC"])), ("PS512", (["RSA"], ["EC384"])),
+                                    (None, ([], ["RSA"]))):
+                for slots in slotsets:
+                    register = {"alg": asked, "slots": slots, "ok": True}
+                    if not slots:
+                        register["over"] = {"jwks": None}
+                    for name, obj in reg_objects(asked, adv, slots):
+                        for transport in ("value", "uri", "par"):
+                            docs, ops = ops_for(transport, 0, obj, DOVER, pusher="client_d")
+                            R.run_case("register", wkey, {"prov_algs": prov}, docs, ops, register=register,
+                                       note="%s/%s after registering %r with keys %r (advertised %s, own keys %s)" % (
+                                           transport, name, asked, slots, "default" if prov is None else prov, opkeys))
+    # refused registrations (the rest of the request is not acceptable: a redirect URI with a fragment) register nothing:
+    # every object in client_d's name is refused afterwards
+    for opkeys in ("rsa+p256", "rsa+p384"):
+        wkey = (True, "all", True, 3600, opkeys)
+        for asked in ("ES384", "RS256", "none", None):
+            register = {"alg": asked, "slots": ALL_SLOTS, "ok": False, "over": {"redirect_uris": ["https://client_d.example.com/cb#f"]}}
+            for name, obj in reg_objects(asked, advertised_of(R, wkey, RPROVS[2]), ALL_SLOTS):
+                for transport in ("value", "uri"):
+                    docs, ops = ops_for(transport, 0, obj, DOVER, pusher="client_d")
+                    R.run_case("register-refused", wkey, {"prov_algs": RPROVS[2]}, docs, ops, register=register,
+                               note="%s/%s after a REFUSED registration asking %r" % (transport, name, asked))
+    # the static clients are judged as before next to a registered client, and client_d's registration does not leak to them
+    for opkeys in ("rsa+p256", "p256"):
+        wkey = (True, "all", True, 3600, opkeys)
+        for asked in ("ES384", "none", "HS256"):
+            for reg1 in (None, "RS256"):
+                for alg in ("RS256", "ES256", "HS256", "none"):
+                    for transport in ("value", "par"):
+                        docs, ops = ops_for(transport, 1, genuine("client_1", alg, base_claims("client_1", 1)), {})
+                        R.run_case("register-other", wkey, {"prov_algs": RPROVS[2], "reg": {"client_1": reg1}}, docs, ops,
+                                   register={"alg": asked, "slots": ALL_SLOTS, "ok": True},
+                                   note="%s/client_1 %s (registered %r) after client_d registered %r" % (transport, alg, reg1, asked))
+
+
+def gen_random_registered(R, rng, count):
+    import srv_c16 as S
+    pool = S.JOSE_SIGNING + ["ES256K"]
+    for i in range(count):
+        opkeys = rng.choice(list(S.OP_KEYSETS))
+        meth = rng.choice(["all", "all", "rp_pub", "pub"])
+        wkey = (True, meth, True, 3600, opkeys)
+        prov = None if rng.random() < 0.3 else sorted(rng.sample(pool, rng.randint(1, 7)))
+        adv = advertised_of(R, wkey, prov)
+        asked = rng.choice(S.JOSE_SIGNING + [None, "ES256K", "rs256", "RS256 "]) if rng.random() < 0.5 else rng.choice(adv)
+        slots = ALL_SLOTS if rng.random() < 0.6 else sorted(rng.sample(ALL_SLOTS, rng.randint(0, 4)))
+        register = {"alg": asked, "slots": slots, "ok": True}
+        if not slots:
+            register["over"] = {"jwks": None}
+        docs, ops = {}, []
+        for k in range(rng.randint(1, 3)):
+            name, obj = rng.choice(reg_objects(asked, adv, slots, thorough=True, state="ind%d" % k))
+            transport = rng.choice(["value", "uri", "par"])
+            d, o = ops_for(transport, k, obj, DOVER, pusher="client_d")
+            docs.update(d)
+            ops += o
+        R.run_case("register-random", wkey, {"prov_algs": prov}, docs, ops, register=register,
+                   note="random: registering %r (advertised %r, own keys %s, jwks %r)" % (asked, prov, opkeys, slots))
+
+
 # ------------------------------------------------------------------ entry points
 IMPORTS = ["Lib.Base", "Lib.PyStr", "Lib.Crypto", "Model.Jar", "Model.JarCheck"]
 CASE_T = "ccase"
@@ -1070,6 +1319,23 @@ def flush(R, ctx, label):
         ctx.coq_check_cases(IMPORTS, CASE_T, "(chk_compact %s %s %s)" % (jar, base, dprov), cases, shard=shard, label=label,
                             diag="(diag_compact %s %s %s)" % (jar, base, dprov))
     R.cases = {}
+    if R.rcases:
+        # registration cases: the static parts (key jar per provider key set and JWKS, client base, default set) are few
+        # but the groups are many and small: one call, each case names its static parts by position
+        js, bs, ds, cases = [], [], [], []
+
+        def pos(l, x):
+            if x not in l:
+                l.append(x)
+            return l.index(x)
+        for (jar, base, dprov), cs in R.rcases.items():
+            ix = "(%s, %s, %s)" % (coq_nat(pos(js, jar)), coq_nat(pos(bs, base)), coq_nat(pos(ds, dprov)))
+            cases += [("(%s, %s)" % (ix, term), rec) for term, rec in cs]
+        args = "%s %s %s" % (coq_list(js, "(list (pystr * list (kty * nat)))"), coq_list(bs, "cbase"), coq_list(ds, "(list pystr)"))
+        shard = max(40, min(150, -(-len(cases) // E.NCPU)))
+        ctx.coq_check_cases(IMPORTS, "((nat * nat * nat) * rcase)", "(chk_reg_multi %s)" % args, cases, shard=shard, label=label + "r",
+                            diag="(diag_reg_multi %s)" % args)
+    R.rcases = {}
 
 
 def run(ctx):
@@ -1089,6 +1355,10 @@ def run(ctx):
         flush(R, ctx, "jwe")
         gen_random_wrapped(R, ctx.rng, 150 if ctx.quick else 4000)
         flush(R, ctx, "jwerandom")
+        gen_registered(R, ctx.quick)
+        flush(R, ctx, "register")
+        gen_random_registered(R, ctx.rng, 150 if ctx.quick else 4000)
+        flush(R, ctx, "registerrandom")
     finally:
         if R.clock is not None:
             R.clock.uninstall()
@@ -1103,6 +1373,17 @@ def run(ctx):
             ctx.broken.append("harness sanity: no genuine request object inside an encrypted wrapper was accepted (%s): "
                               "the provider no longer decrypts, the wrapper rows judge nothing" % tr)
     ctx.notes.append("genuine objects accepted: %d (inside a JWE: %s)" % (R.accepted_genuine, ", ".join(sorted(R.accepted_wrapped)) or "none"))
+    st = R.reg_stats
+    for k, what in (("exact", "asking for an advertised algorithm"), ("dropped", "asking for nothing / a value not advertised"),
+                    ("refused", "that is refused")):
+        if st[k] == 0:
+            ctx.broken.append("harness sanity: no registration %s was driven: the registration rows judge nothing" % what)
+    for tr in ("value", "uri", "pushed"):
+        if not ctx.distribution.get("genuine-accepted-registered:" + tr):
+            ctx.broken.append("harness sanity: no genuine request object of a dynamically registered client was accepted (%s)" % tr)
+    ctx.notes.append("registrations through the real endpoint: %d accepted (%d asking for an advertised algorithm, %d for nothing / a value "
+                     "not advertised), %d refused; a value that is not advertised is dropped and the response says so (observation, see "
+                     "assumptions)" % (st["stored"], st["exact"], st["dropped"], st["refused"]))
 
 
 def replay(ctx, rp):
@@ -1140,9 +1421,11 @@ def replay(ctx, rp):
                 ops.append(("redeem", urns.index(ru), outer, o["obj"]))
             else:
                 ops.append(("authz", outer, o["obj"]))
+    wkey = (w["oidc"], w["methods"], w["has_par"], w["ttl"]) + ((w["opkeys"],) if w.get("opkeys") else ())
     try:
-        R.run_case(case.get("kind", "replay"), (w["oidc"], w["methods"], w["has_par"], w["ttl"]), case.get("conf") or {},
-                   case.get("docs") or {}, ops, t0=case.get("t0", 1_700_000_000), note="replay of: %s" % case.get("note", ""))
+        R.run_case(case.get("kind", "replay"), wkey, case.get("conf") or {},
+                   case.get("docs") or {}, ops, t0=case.get("t0", 1_700_000_000), note="replay of: %s" % case.get("note", ""),
+                   register=case.get("register"))
         flush(R, ctx, "replay")
     finally:
         if R.clock is not None:
